@@ -78,7 +78,16 @@ impl Worker {
     fn spawn(&mut self) {
         let (exe, args) = match &self.cmd {
             Some((p, a)) => (p.clone(), a.clone()),
-            None => (std::env::current_exe().expect("current_exe"), vec!["worker".to_string()]),
+            None => {
+                // if the binary was rebuilt while this coordinator runs, /proc/self/exe reads "<path> (deleted)":
+                // the rebuilt binary at the same path speaks the same protocol
+                let exe = std::env::current_exe().expect("current_exe");
+                let exe = match exe.to_str().and_then(|s| s.strip_suffix(" (deleted)")) {
+                    Some(s) => std::path::PathBuf::from(s),
+                    None => exe,
+                };
+                (exe, vec!["worker".to_string()])
+            }
         };
         let mut child = Command::new(&exe)
             .args(&args)
